@@ -43,7 +43,10 @@ def check(run, prog, tier):
     msg = P(mr, param_at(mr, 0, "someip_message"))
     addr = P(mr, param_at(mr, 1, "addr"))
     mc = P(mr, param_at(mr, 2, "multicast"))
-    eng = engine(prog, InlineOnly(names=(ser.qual, spr.qual), props=False, max_depth=1))
+    # every helper method the endpoint class itself defines is spliced in (reply builders and whatever they
+    # delegate to); the transmission primitive `send` stays a call event
+    own = lambda f: f.cls is not None and f.cls.qual == SVC and f.qual not in (send.qual, mr.qual) and f.kind == "method"
+    eng = engine(prog, InlineOnly(names=(ser.qual, spr.qual), pred=own, props=False, max_depth=4))
     paths = eng.paths(mr, recv=SVC)
     run.paths += len(paths)
     mt = enum_members(prog, "header.SOMEIPMessageType")
